@@ -370,7 +370,8 @@ def rule_split(ctx):
     # partial socket send keeps exactly the unsent tail
     f = ctx.index.func("recordlayer:RecordSocket._sockSendAll")
     src = [norm(n) for n in own_nodes(f.node) if isinstance(n, ast.Assign)]
-    ctx.check(R, "bytesSent = self.sock.send(data)" in src and "data = data[bytesSent:]" in src, f.qname,
+    from .common import pmatch
+    ctx.check(R, pmatch(["$n = self.sock.send(data)", "data = data[$n:]"], src) is not None, f.qname,
               "partial send keeps the unsent tail", "after a partial send exactly data[bytesSent:] must remain", f.loc())
 
 
